@@ -104,6 +104,55 @@ theorem witness_parseNumber :
     panicTag (parseNumber ⟨fFormat, sepItc, true⟩ false {} (Bytes.new inFrac) false) = some "step_by: on digit separator" := by
   decide +kernel
 
+/-! ### second class: separator = exponent character / base suffix / base prefix *up to ASCII case*
+
+`is_valid_punctuation` / `is_valid_options_punctuation` compare the control characters exactly, the parser
+compares the exponent character, base prefix and base suffix case-insensitively (unless the `case_sensitive_*`
+flag is set). With separator `E` and exponent `e` (or `X` / `x` for prefix or suffix) the byte under the cursor
+matches, and the following `step_unchecked` is on a digit separator. -/
+
+def sepEI : Format := ⟨0xa0a0a0000000045000000070000000c⟩
+def suffixXSepXI : Format := ⟨0xa0a0a7800000058000000070000000c⟩
+def prefixXSepXI : Format := ⟨0xa0a0a0078000058000000070000000c⟩
+
+/-- `pf f64 a0a0a0000000045000000070000000c 0 0 101 46 4e614e 696e66 696e66696e697479 31452b35` (`1E+5`, feature set `format`) -/
+theorem witness_sep_eq_exponent_uncased :
+    parseFloatModel fFormat sepEI {} false f64 [49, 69, 43, 53] true = "panic" := by decide +kernel
+
+theorem witness_sep_eq_exponent_uncased_tag :
+    panicTag (parseFloatSyntax ⟨fFormat, sepEI, true⟩ {} false [49, 69, 43, 53]) = some "step_by: on digit separator" := by
+  decide +kernel
+
+/-- `pf f64 a0a0a7800000058000000070000000c 0 0 101 46 4e614e 696e66 696e66696e697479 3158` (`1X`, `radix+format`) -/
+theorem witness_sep_eq_suffix_uncased :
+    parseFloatModel fRadixFormat suffixXSepXI {} false f64 [49, 88] true = "panic" := by decide +kernel
+
+/-- `pf f64 a0a0a0078000058000000070000000c 0 0 101 46 4e614e 696e66 696e66696e697479 3058` (`0X`, `radix+format`) -/
+theorem witness_sep_eq_prefix_uncased :
+    parseFloatModel fRadixFormat prefixXSepXI {} false f64 [48, 88] true = "panic" := by decide +kernel
+
+/-! ### the unrestricted debug-mode statement is false -/
+
+theorem not_parse_total_debug :
+    ¬ (∀ (c : Cfg) (o : POpts) (isPartial : Bool) (input : List Nat),
+      (formatError c.feats c.fmt).isNone = true → checkRadix c.feats c.fmt = true →
+      isValidOptionsPunctuation c.feats c.fmt o.exp o.dp = true →
+      match parseFloatSyntax c o isPartial input with
+      | .error (.panic _) => False
+      | .error (.fault _) => False
+      | _ => True) := by
+  intro h
+  have hw := witness_sep_itc_fraction_tag
+  have := h ⟨fFormat, sepItc, true⟩ {} false inFrac (by decide +kernel) (by decide +kernel) (by decide +kernel)
+  cases hr : parseFloatSyntax ⟨fFormat, sepItc, true⟩ {} false inFrac with
+  | ok p => rw [hr] at hw; simp [panicTag] at hw
+  | error e =>
+    rw [hr] at this hw
+    cases e with
+    | err k i => simp [panicTag] at hw
+    | panic t => exact this
+    | fault t => exact this
+
 /-! ### why the theorem below needs `radix → power-of-two` on the feature record
 
 `Features` is a record of independent booleans; cargo's `radix` feature enables `power-of-two`. For the
